@@ -653,6 +653,50 @@ _AMEND.setdefault("C14", []).append(
      "the schema's type table through the schema snapshot it was built with "
      "(one known finding: F22 -- an override addressing a section of a "
      "%import-ed type is refused)."))
+_AMEND["C07"].append(
+    ("technique", "guard-dominance rules on a CFG",
+     "guard-dominance rules on a CFG; implicit TypeError sites (None in "
+     "str.join / string concatenation) from 0-CFA element types"))
+_AMEND.setdefault("C11", []).append(
+    ("technique", "component and base-schema handling",
+     "component and base-schema handling + value-origin rule for tables "
+     "keyed by key-type output (re-keying on derivation)"))
+_AMEND["C11"].append(
+    ("text", "Does not decide", "Also decides that no table keyed by "
+     "key-type-normalised names is handed verbatim to a derived type whose "
+     "key type may differ (one known finding: F25, the key map under "
+     "extends + keytype).  Does not decide"))
+_AMEND["C12"].append(
+    ("technique", "ownership analysis of load-phase mutator calls",
+     "ownership analysis of load-phase mutator calls + stale-snapshot rule "
+     "(value origins of the receivers of vocabulary lookups) + "
+     "restore/reset rule over the CFG of the top-level load function"))
+_AMEND["C12"].append(
+    ("text", "and that the option bag looks a type up only for a section an "
+     "override addresses.",
+     "that the option bag looks a type up only for a section an override "
+     "addresses; that every loader field a load re-binds is put back or "
+     "reset by the top-level load function on every path (F23, repaired); "
+     "and that the shipped logger component declares the implementers its "
+     "documentation names."))
+_AMEND["C13"].append(
+    ("technique", "memo and process-wide-state rules",
+     "memo and process-wide-state rules (cache stores are the last effect "
+     "of their function, on the CFG)"))
+_AMEND["C14"].append(
+    ("technique", "who-may-call rule for substitution",
+     "who-may-call rule for substitution + judged-before-dropped ordering "
+     "rule on the CFG of the key/value handler with callee escape sets + "
+     "stale-snapshot rule (shared with C12)"))
+_AMEND["C14"].append(
+    ("text", "an override addressing a section of a %import-ed type is "
+     "refused).",
+     "an override addressing a section of a %import-ed type is refused); "
+     "that nothing the parser does with a key/value line before the "
+     "hand-over to the section can reject it (one known finding: F24 -- a "
+     "line for an overridden key is $-expanded first); that errors raised "
+     "when a section is finished keep their class on the way through the "
+     "parser, for both spellings of a section."))
 for _pid, _items in _AMEND.items():
     for _field, _old, _new in _items:
         assert _old in CLAIMS[_pid][_field], (_pid, _old)
